@@ -96,7 +96,7 @@ def w_state(num_qubits: int, coeff: list[int] = None) -> np.ndarray:
         coeff = coeff / norm
 
     # Initialize a state vector of appropriate size.
-    ret_w_state = csr_array((2**num_qubits, 1)).toarray()
+    ret_w_state = csr_array((2**num_qubits, 1), dtype=np.result_type(coeff.dtype, float)).toarray()
     # Fill the vector so that the state has the single excitation distributed according to coeff.
     # Note: The ordering assumes that the binary representation corresponds to qubits in little-endian order.
     for i in range(num_qubits):
